@@ -71,8 +71,17 @@ func template(k int, a, b MalType) (string, MalType) {
 		return "(g $A $a-b_c $C)", lst(sym("g"), a, b, nil) // $C has no value: nil
 	case 6:
 		return "\n\n$B1", b
-	default:
+	case 7:
 		return ";; a comment, not a preamble line\n($A)", lst(a)
+	case 8:
+		// the source's own first line looks like a preamble line: it is a comment of the source
+		return ";; $A 10\n(list $A)", lst(sym("list"), a)
+	case 9:
+		return "(str ¬a  \nb¬ $A)", lst(sym("str"), "a  \nb", a)
+	default:
+		// inside a set literal (members must be strings or keywords: the caller constrains $A)
+		as, _ := a.(string)
+		return "(list #{$A :z} [#{$A}])", lst(sym("list"), Set{Val: map[string]struct{}{as: {}, NewKeyword("z"): {}}}, Vector{Val: []MalType{Set{Val: map[string]struct{}{as: {}}}}})
 	}
 }
 
@@ -81,14 +90,23 @@ func Harness_transport() {
 	d := vrt.Param("depth", 1)
 	a := value("a", d)
 	b := value("b", d)
-	k := vrt.Concrete(vrt.Choice("template", vrt.Param("templates", 8)))
-	src, want := template(k, a, b)
+	k := vrt.Concrete(vrt.Choice("template", vrt.Param("templates", 11)))
+	if k == 10 {
+		_, isStr := a.(string)
+		vrt.Assume(isStr)
+	}
 	m := map[string]MalType{"$A": a}
 	if k == 5 {
 		m["$a-b_c"] = b
 	} else {
 		m["$B1"] = b
 	}
+	if (k == 8 || k == 9) && vrt.Bool("emptymap") {
+		// no placeholder has a value: every placeholder reads as nil
+		m = map[string]MalType{}
+		a = nil
+	}
+	src, want := template(k, a, b)
 	vrt.Observe("template", k)
 	// direct substitution by the reader
 	r2, err2 := reader.Read_str(src, nil, &HashMap{Val: m})
